@@ -64,6 +64,10 @@ type Case struct {
 	Changed []string `json:"changed,omitempty"`
 	// fileset/build: listed names whose directory physically lies outside the source tree
 	Outside []string `json:"outside,omitempty"`
+	// buildkey: the package directory the raw repo-map key names lies outside src, and the
+	// rule declared in the build file there was loaded and built
+	PkgOutside bool `json:"pkgoutside,omitempty"`
+	Loaded     bool `json:"loaded,omitempty"`
 	Crash string   `json:"crash,omitempty"`
 }
 
@@ -507,6 +511,31 @@ func genCases(seed uint64, n int, thorough bool) []Case {
 		}
 		add(Case{Stream: "build", Op: "build", P: "pkg", Tree: treeEntries(files), TreeID: btid, Rule: rule})
 	}
+	// builds over a package holding symbolic links (to a directory outside the workspace, to a
+	// file outside, dangling).
+	for _, sel := range []string{"**", "ld/*", "l*", "ld/sub/**", "lo", "*"} {
+		btid++
+		t := treeEntries([]string{"pkg/BUILD.caco3", "pkg/a.txt", "pkg/dir/a.txt"})
+		t = append(t, TE{P: "pkg/ld", K: "ld", L: "../../outside"}, TE{P: "pkg/ld/secret.txt", V: true},
+			TE{P: "pkg/ld/sub", D: true, V: true}, TE{P: "pkg/ld/sub/deep.txt", V: true},
+			TE{P: "pkg/lo", K: "lf", L: "../../outside/secret.txt"}, TE{P: "pkg/lb", K: "lb", L: "nowhere"})
+		sort.Slice(t, func(i, j int) bool { return t[i].P < t[j].P })
+		add(Case{Stream: "build-links", Op: "build", P: "pkg", Tree: t, TreeID: btid,
+			Rule: &Rule{Name: "fs", Files: []string{}, Select: []string{sel}, Ignore: []string{}}})
+	}
+	// end-to-end builds with unclean / climbing repo-map keys (the loader's package paths).
+	for _, key := range []string{"pkg", "./pkg", "pkg/", "pkg/../pkg", "/pkg", "pkg//sub", "../vendor/lib", "a/../..", "../../outside",
+		"..", "pkg/../../vendor", "../src/pkg"} {
+		for _, rule := range []*Rule{
+			{Name: "fs", Files: []string{"a.txt"}, Select: []string{}, Ignore: []string{}},
+			{Name: "fs", Files: []string{}, Select: []string{"**"}, Ignore: []string{}},
+			{Name: "fs", Files: []string{}, Select: []string{"*.txt"}, Ignore: []string{}},
+			{Name: "../fs", Files: []string{"dir/a.txt"}, Select: []string{"dir/**"}, Ignore: []string{"dir2/"}},
+		} {
+			btid++
+			add(Case{Stream: "build-keys", Op: "buildkey", P: key, TreeID: btid, Rule: rule})
+		}
+	}
 	return cs
 }
 
@@ -625,6 +654,8 @@ func runCase(c *Case, scratch string, built map[int]string) {
 		c.Outside = physicallyOutside(filepath.Join(root, "src"), files)
 	case "build":
 		runBuild(c, scratch)
+	case "buildkey":
+		runBuildKey(c, scratch)
 	case "rule":
 		var rule interface{}
 		a, b := c.Fields[0], c.Fields[1]
@@ -764,6 +795,72 @@ func runBuild(c *Case, scratch string) {
 		if err := json.Unmarshal(bs, &list); err != nil {
 			c.Err = "other:output: " + err.Error()
 			return
+		}
+		c.Outs = []string{}
+		for _, e := range list {
+			c.Outs = append(c.Outs, e.Name)
+		}
+		c.Outside = physicallyOutside(filepath.Join(ws, "src"), c.Outs)
+	}
+}
+
+// runBuildKey builds a rule of a package whose repo-map key is c.P, verbatim.
+// The package's build file and sources are put where the key, joined
+// lexically onto src, leads (possibly outside src or outside the workspace).
+func runBuildKey(c *Case, scratch string) {
+	base := filepath.Join(scratch, fmt.Sprintf("b%d", c.TreeID))
+	os.RemoveAll(base)
+	defer os.RemoveAll(base)
+	ws := filepath.Join(base, "deep", "ws")
+	src := filepath.Join(ws, "src")
+	pdir := filepath.Join(src, filepath.FromSlash(c.P))
+	c.PkgOutside = pdir != src && !strings.HasPrefix(pdir, src+"/")
+	for _, d := range []string{src, pdir, filepath.Join(pdir, "dir"), filepath.Join(pdir, "dir2"), filepath.Join(base, "outside")} {
+		os.MkdirAll(d, 0o755)
+	}
+	for _, f := range []string{"a.txt", "dir/a.txt", "dir2/b.txt", "dirfile"} {
+		os.WriteFile(filepath.Join(pdir, f), []byte(f), 0o644)
+	}
+	key, _ := json.Marshal(c.P)
+	os.WriteFile(filepath.Join(ws, "WORKSPACE.caco3"), []byte(fmt.Sprintf("repo_map {\n  Src: {%s: \"\"},\n}\n", key)), 0o644)
+	nm, _ := json.Marshal(c.Rule.Name)
+	bf := fmt.Sprintf("file_set {\n  Name: %s,\n  Files: %s,\n  Select: %s,\n  Ignore: %s,\n}\n",
+		nm, jsonxStrs(c.Rule.Files), jsonxStrs(c.Rule.Select), jsonxStrs(c.Rule.Ignore))
+	os.WriteFile(filepath.Join(pdir, "BUILD.caco3"), []byte(bf), 0o644)
+
+	before := snapDir(base)
+	log.SetOutput(io.Discard)
+	b, err := caco3.NewBuilder(ws, &caco3.Config{Root: ws})
+	if err != nil {
+		c.Err = "other:builder: " + err.Error()
+		return
+	}
+	if _, errs := b.ReadWorkspace(); errs != nil {
+		c.Err = "other:workspace"
+		return
+	}
+	name := caco3.VerifMakeRelPath(c.P, c.Rule.Name)
+	c.Out = name
+	errs := b.Build([]string{name})
+	if errs != nil {
+		cls := projErr(errs[0].Err)
+		if strings.HasPrefix(cls, "other:") {
+			cls = "other"
+		}
+		c.Err = "builderr:" + cls
+	}
+	after := snapDir(base)
+	for p, a := range after {
+		if bb, ok := before[p]; !ok || bb != a {
+			c.Changed = append(c.Changed, p)
+		}
+	}
+	sort.Strings(c.Changed)
+	if errs == nil {
+		c.Loaded = true
+		var list []struct{ Name string }
+		if bs, err := os.ReadFile(filepath.Join(ws, "out", filepath.FromSlash(name)+".fileset")); err == nil {
+			json.Unmarshal(bs, &list)
 		}
 		c.Outs = []string{}
 		for _, e := range list {
